@@ -20,7 +20,7 @@ import (
 type c12Named struct{ Kind, Val string }
 
 // the request is always for the site "example.com"
-var c12ReqHosts = []struct{ Name, Port string }{{"example.com", ""}, {"example.com", "8080"}, {"EXAMPLE.COM", ""}, {"[::1]", "8080"}}
+var c12ReqHosts = []struct{ Name, Port string }{{"example.com", ""}, {"example.com", "8080"}, {"EXAMPLE.COM", ""}, {"[::1]", "8080"}, {"wiki.example.com", ""}}
 
 var c12Schemes = []string{"https", "http", "HTTP"}
 
@@ -46,6 +46,11 @@ var c12Hosts = []c12Named{
 	{"sub-domain", "sub.example.com"},
 	{"super-domain", "com"},
 	{"trailing-dot", "example.com."},
+	// equal to the request host wiki.example.com only under a lower-casing that maps
+	// U+0130 (capital I with dot above) to "i"; case-insensitive comparison of host
+	// names is ASCII folding (another DNS name)
+	{"dotted-capital-i", "w\u0130k\u0130.example.com"},
+	{"equal-wiki", "WIKI.example.com"},
 }
 
 var c12Ports = []string{"", "80", "8080"}
@@ -231,6 +236,10 @@ func c12One(c *fw.Ctx, cs c12Case) (upgraded bool) {
 	opts := &websocket.AcceptOptions{InsecureSkipVerify: cs.SkipVerify}
 	if cs.Patterns != nil {
 		opts.OriginPatterns = append([]string(nil), cs.Patterns...)
+	}
+	if !cs.SkipVerify && cs.Patterns == nil && cs.Idx%2 == 0 {
+		// default options are also what a nil pointer means (every other such case)
+		opts = nil
 	}
 
 	var conn *websocket.Conn
